@@ -25,7 +25,16 @@ OBLIGATIONS = [
     # pack bridges (generated) and IEEE
     'C12.gen_pack_hp_eq', 'C12.gen_pack_sp_eq', 'C12.gen_pack_dp_eq', 'C12.gen_fph_pack_sp_eq',
     'C12.sp_decode_spec', 'C12.dp_decode_spec',
-    'C12.sp_encode_neg_zero', 'C12.hp_subnormal_table', 'C12.hp_subnormal_spec',
+    'C12.sp_encode_neg_zero',
+    # encode . decode = id (FloatingPointHelper), every non-NaN pattern
+    'C12.fp_to_parts_spec', 'C12.parts_of_decode', 'C12.sp_encode_decode', 'C12.dp_encode_decode',
+    'C12.sp_roundtrip', 'C12.dp_roundtrip',
+    # FPNum: convert fmt . from_ieee754 fmt = id, and FPNum(b, fmt) denotes IEEE.decode b, every format
+    'C12.adjust_semp_shape', 'C12.stdPrec_exact', 'C12.hidden_bit', 'C12.roundtrip_fields',
+    'C12.fpnum_roundtrip_hp', 'C12.fpnum_roundtrip_sp', 'C12.fpnum_roundtrip_dp',
+    'C12.from_parts_value', 'C12.fpnum_from_hp_value', 'C12.fpnum_from_sp_value', 'C12.fpnum_from_dp_value',
+    # widening conversions are exact
+    'C12.convertFinite_exact_normal', 'C12.widen_fields', 'C12.fpnum_widen_hp_sp', 'C12.fpnum_widen_hp_dp', 'C12.fpnum_widen_sp_dp',
 ]
 
 # proposals for /verif/known_findings.json (the integrator merges them); used locally until they are listed there.
